@@ -44,7 +44,9 @@ contract("monkeytype.typing:shrink_types", props=["C04", "C05", "C06", "C01"], t
          params={"types": "Seq[Ty]", "max_typed_dict_size": "Opt[int]"}, result="Ty", scc="shrink", decreases=["mdepth(types)", "1"],
          requires={"wf": "forall(types, lambda t: wf_rw(t) and t is not ELLIPSIS_)"},
          ensures={"post:super": _SUP, "post:wf": "wf_rw(result) and result is not ELLIPSIS_",
-                  "post:empty": "implies(len(types) == 0, result is ANY)"})
+                  "post:empty": "implies(len(types) == 0, result is ANY)"},
+         # C05: the literal Any is produced only for the empty input
+         any_only_if="len(types) == 0")
 
 _KOK = "(max_typed_dict_size is None or max_typed_dict_size >= 0)"
 contract("monkeytype.typing:get_dict_type", props=["C04", "C05", "C06", "C03"], theories=TH,
@@ -53,9 +55,21 @@ contract("monkeytype.typing:get_dict_type", props=["C04", "C05", "C06", "C03"], 
          hints={"td-keys": "implies(kind(result) is K_TD, forall(dct, lambda k: has(td_req(result), k) and is_strval(k)))",
                 "td-req": "implies(kind(result) is K_TD, forall(td_req(result), lambda k: has(dct, k) and mem(lookup(dct, k), lookup(td_req(result), k))))",
                 "td-opt": "implies(kind(result) is K_TD, len(td_opt(result)) == 0)"},
-         ensures={"post:mem": "mem(dct, result)", "post:wf": "wf_rw(result) and result is not ELLIPSIS_"})
+         ensures={"post:mem": "mem(dct, result)", "post:wf": "wf_rw(result) and result is not ELLIPSIS_",
+                  # C06 (top-level node): a TypedDict only for a non-empty dict whose keys are all strings, with at most k keys, all required; none for k = 0
+                  "post:td-size": "implies(kind(result) is K_TD, len(dct) > 0 and (max_typed_dict_size is None or len(dct) <= max_typed_dict_size)"
+                                  " and len(td_opt(result)) == 0 and forall(dct, lambda k: is_strval(k) and has(td_req(result), k)) and forall(td_req(result), lambda k: has(dct, k)))",
+                  "post:td-disabled": "implies(max_typed_dict_size is not None and max_typed_dict_size <= 0, kind(result) is not K_TD)",
+                  "post:empty-dict": "implies(len(dct) == 0, result is Dict_(ANY, ANY))"},
+         any_only_if="len(dct) == 0")
 
 contract("monkeytype.typing:get_type", props=["C04", "C05", "C06", "C02", "C03", "C01"], theories=TH,
          params={"obj": "Val", "max_typed_dict_size": "Opt[int]"}, result="Ty", scc="infer", decreases=["size(obj)", "1"],
          requires={"val-wf": "wf_val(obj)"},
-         ensures={"post:mem": "mem(obj, result)", "post:wf": "wf_rw(result) and result is not ELLIPSIS_"})
+         ensures={"post:mem": "mem(obj, result)", "post:wf": "wf_rw(result) and result is not ELLIPSIS_",
+                  # C05: class names are the exact runtime classes of observed values; the bare Any is never a value's type
+                  "post:exact-class": "implies(kind(result) is K_Class, result is cls_of(obj))",
+                  "post:never-any": "result is not ANY",
+                  "post:td-disabled": "implies(max_typed_dict_size is not None and max_typed_dict_size <= 0, kind(result) is not K_TD)"},
+         # C05: the only literal Any in get_type is the element type of Iterator for generator objects (which cannot be inspected)
+         any_only_if="is_generator_obj(obj)")
